@@ -1,1 +1,83 @@
-fn main(){}
+//! C08 child: builds one configuration from argv, drains the evaluator on a thread with the
+//! default 2 MiB stack and prints `count=<n>`. The exit status is the observation:
+//! 0 = returned normally, 101 = panic, signal = stack exhaustion / abort.
+//!
+//! usage: drain <flop: 3 card texts concatenated> <range-spec>...
+//!   range-spec:  empty | text:<range notation> | first:<N> | firstnot:<card>:<N> | list:<AsKs,AsQd,...>
+//! This crate is built with the stock dev and release profiles and nothing else.
+
+use espada::card::{Card, Rank, Suit};
+use espada::evaluator::FlopExhaustiveEvaluator;
+use espada::hand_range::{CardPair, HandRange};
+
+const RANKS: [Rank; 13] = [
+    Rank::Ace, Rank::King, Rank::Queen, Rank::Jack, Rank::Ten, Rank::Nine, Rank::Eight,
+    Rank::Seven, Rank::Six, Rank::Five, Rank::Four, Rank::Trey, Rank::Deuce,
+];
+const SUITS: [Suit; 4] = [Suit::Spade, Suit::Heart, Suit::Diamond, Suit::Club];
+const RC: &str = "AKQJT98765432";
+const SC: &str = "shdc";
+
+fn card(i: usize) -> Card {
+    Card::new(RANKS[i / 4], SUITS[i % 4])
+}
+fn card_of_text(t: &str) -> usize {
+    let b = t.as_bytes();
+    RC.find(b[0] as char).unwrap() * 4 + SC.find(b[1] as char).unwrap()
+}
+
+fn range_of(spec: &str) -> HandRange {
+    if spec == "empty" {
+        return HandRange::empty();
+    }
+    if let Some(t) = spec.strip_prefix("text:") {
+        return t.parse().unwrap();
+    }
+    let mut combos: Vec<(usize, usize)> = vec![];
+    for a in 0..52 {
+        for b in (a + 1)..52 {
+            combos.push((a, b));
+        }
+    }
+    let chosen: Vec<(usize, usize)> = if let Some(n) = spec.strip_prefix("first:") {
+        combos.into_iter().take(n.parse().unwrap()).collect()
+    } else if let Some(rest) = spec.strip_prefix("firstnot:") {
+        let (c, n) = rest.split_once(':').unwrap();
+        let c = card_of_text(c);
+        combos.into_iter().filter(|(a, b)| *a != c && *b != c).take(n.parse().unwrap()).collect()
+    } else if let Some(rest) = spec.strip_prefix("list:") {
+        rest.split(',').map(|t| (card_of_text(&t[0..2]), card_of_text(&t[2..4]))).collect()
+    } else {
+        panic!("bad range spec {}", spec);
+    };
+    chosen.into_iter().map(|(a, b)| (CardPair::new(card(a), card(b)), 1.0f32)).collect()
+}
+
+fn main() {
+    let args: Vec<String> = std::env::args().collect();
+    let f = &args[1];
+    let board = [
+        Some(card(card_of_text(&f[0..2]))),
+        Some(card(card_of_text(&f[2..4]))),
+        Some(card(card_of_text(&f[4..6]))),
+        None,
+        None,
+    ];
+    let players: Vec<HandRange> = args[2..].iter().map(|s| range_of(s)).collect();
+    // the property names the default 2 MiB thread stack
+    let h = std::thread::Builder::new()
+        .stack_size(2 * 1024 * 1024)
+        .spawn(move || {
+            let evaluator = FlopExhaustiveEvaluator::new(&board, &players);
+            let mut n: u64 = 0;
+            for _showdown in evaluator {
+                n += 1;
+            }
+            n
+        })
+        .unwrap();
+    match h.join() {
+        Ok(n) => println!("count={}", n),
+        Err(_) => std::process::exit(101),
+    }
+}
